@@ -1073,7 +1073,8 @@ func (f *Frame) appendOp(in ssa.Instruction, cc *ssa.CallCommon, args []SV, st *
 	base := f.copyRange(c.zero(types.NewArray(elem, 0)), "0", sel(st.get(eh), "(s.ref "+s+")"), "(s.off "+s+")", sLen, es, and(g, not(fits)))
 	frArr := f.copyRange(base, sLen, tArr, tOff, tLen, es, and(g, not(fits)))
 	f.x.frameCheck(st, eh, "(s.ref "+s+")", and(g, fits, "(> "+tLen+" 0)"), f.where(in))
-	f.x.chargeAllocBytes(st, and(g, not(fits)), fmt.Sprintf("(* %d %s)", maxi(1, types.SizesFor("gc", "amd64").Sizeof(elem)), ncap))
+	// amortised cost model of append: growing by doubling allocates at most ~3x the bytes appended in total
+	f.x.chargeAllocBytes(st, g, fmt.Sprintf("(* %d %s)", 3*maxi(1, types.SizesFor("gc", "amd64").Sizeof(elem)), tLen))
 	st.set(eh, ite(fits, sto(st.get(eh), "(s.ref "+s+")", inArr), sto(st.get(eh), r, frArr)))
 	res := ite(fits, fmt.Sprintf("(mk-slice (s.ref %[1]s) (s.off %[1]s) %[2]s (s.cap %[1]s))", s, n),
 		fmt.Sprintf("(mk-slice %s 0 %s %s)", r, n, ncap))
